@@ -204,6 +204,7 @@ def features(sheet):
 class Runner:
     def __init__(self, ctx, model):
         self.ctx, self.model = ctx, model
+        self.listed = set(k["key"] for k in ctx.known.for_property("C01"))
         self.seen = set()
         self.corr_ev, self.corr_vs, self.oracle = [], [], []
         self.known_hits = collections.Counter()
@@ -231,10 +232,12 @@ class Runner:
                 "source": xsltgen.doc_xml(doc), "tree": tree, "flags": flags, "trace": trace, "it": it, "expect": expect}
 
     def known_classes(self, c):
+        """classes of LISTED known findings the program falls in (a class whose finding has been repaired and
+        removed from the list no longer excuses a disagreement)"""
         ks = [FLAG_CLASS[f] for f in FLAG_CLASS if c["flags"].get(f)]
         if passes_global_name(c["sheet_ast"]):
             ks.append("K-C01-1")
-        return ks
+        return [k for k in ks if k in self.listed or k in FOREIGN]
 
     def evaluate(self, cases):
         ctx = self.ctx
@@ -394,7 +397,21 @@ def run(ctx):
         ctx.broken.append("xslt driver does not compile against the working tree: " + hlog[-500:])
         return ctx.finish(LEVEL)
     known = {k["key"]: k for k in ctx.known.for_property("C01")}
+    # instruction-layer facts that shape the event script given to the extracted machine
+    try:
+        import sys
+        sys.path.insert(0, os.path.join(core.VERIF, "translator"))
+        import srcfacts
+        facts = srcfacts.GENERATORS["GenXslt"]()[1]
+        xsltref.EMIT["copy-of"] = not facts["copy_of_skips_empty_string"]
+        xsltref.EMIT["value-of-dot"] = not facts["value_of_dot_skips_empty_string"]
+        ctx.notes["source_variant"] = {k: facts[k] for k in ("copy_of_skips_empty_string", "value_of_dot_skips_empty_string",
+                                                             "params_reset_when_template_frame_popped")}
+    except Exception as e:     # AnchorError is already reported by ctx.prove
+        ctx.notes["source_variant"] = "unavailable: %s" % e
     runner = Runner(ctx, model)
+    # classes whose finding is no longer listed (repaired) are generated on purpose
+    xsltgen.OPEN_CLASSES = set(["K-C01-1"]) - runner.listed
 
     cases = corpus_cases(runner)
     expect = {c["id"]: c["expect"] for c in cases if c["expect"]}
